@@ -277,9 +277,46 @@ def r5(ctx, facts):
     r.instance("fetched-by-marker-index", okn, "the value is fetched from the bound values by bind-marker index", nth[0].span if nth else pb.span)
 
 
+def r6(ctx, facts):
+    r = ctx.rule("R6", "the Murmur3 block step, finaliser and rotation are, term for term, MurmurHash3_x64_128's", floor=4)
+    from ..terms import Evaluator, mk, c, fmt
+    ev = Evaluator(facts)
+    C1, C2 = c(REF["C1"]), c(REF["C2"])
+
+    def inp(n):
+        return ("in", n)
+
+    def rotl(x, n):      # rotl64's own definition is compared below; here it appears expanded
+        return mk("or", mk("shl", x, c(n)), mk("shr", x, c(64 - n), signed=False))
+    # reference (Appleby's MurmurHash3_x64_128 as Cassandra uses it, on i64 with wrapping arithmetic)
+    h1, h2, k1, k2 = ("fld", inp("self"), "h1"), ("fld", inp("self"), "h2"), inp("k1"), inp("k2")
+    k1m = mk("mul", rotl(mk("mul", k1, C1), 31), C2)
+    h1n = mk("add", mk("mul", mk("add", rotl(mk("xor", h1, k1m), 27), h2), c(5)), c(REF["add1"]))
+    k2m = mk("mul", rotl(mk("mul", k2, C2), 33), C1)
+    h2n = mk("add", mk("mul", mk("add", rotl(mk("xor", h2, k2m), 31), h1n), c(5)), c(REF["add2"]))
+    hb = facts.one(r"^%s::hash_16_bytes$" % H)
+    _, env = ev.eval_body(hb, [], 0)
+    got1, got2 = env.get((1, ("*", "h1"))), env.get((1, ("*", "h2")))
+    r.instance("block-step:h1", got1 == h1n, "hash_16_bytes leaves h1 = %s; reference: %s" % (fmt(got1), fmt(h1n)), hb.span)
+    r.instance("block-step:h2", got2 == h2n, "hash_16_bytes leaves h2 = %s; reference: %s" % (fmt(got2), fmt(h2n)), hb.span)
+    k = inp("k")
+
+    def xs(x):
+        return mk("xor", x, mk("shr", x, c(33), signed=False))
+    fref = xs(mk("mul", xs(mk("mul", xs(k), c(REF["fmix1"]))), c(REF["fmix2"])))
+    fb = facts.one(r"^%s::fmix$" % H)
+    got, _ = ev.eval_body(fb, [], 0)
+    r.instance("fmix", got == fref, "fmix(k) = %s; reference: %s" % (fmt(got), fmt(fref)), fb.span)
+    v, n = inp("v"), inp("n")
+    rref = mk("or", mk("shl", v, n), mk("shr", v, mk("sub", c(64), n), signed=False))
+    rb = facts.one(r"^%s::rotl64$" % H)
+    got, _ = ev.eval_body(rb, [], 0)
+    r.instance("rotl64", got == rref, "rotl64(v, n) = %s; reference: %s" % (fmt(got), fmt(rref)), rb.span)
+
+
 def check(ctx):
     facts = inline_view(ctx.facts("default"))
-    for fn in (r1, r2, r3, r4, r5):
+    for fn in (r1, r2, r3, r4, r5, r6):
         try:
             fn(ctx, facts)
         except AnchorLost as ex:
